@@ -9,6 +9,7 @@
   (through the repaired one-byte adapter).
 -/
 import GoMC.Lemmas.NBTDecode
+import GoMC.Lemmas.NBTSound
 import GoMC.Lemmas.NBTTyped
 import GoMC.Lemmas.NBTTotal
 import GoMC.Props.DYNBT
@@ -201,25 +202,55 @@ theorem C03_neg_len_raw_list (fuel : Nat) (e : Byte) (n : BitVec 32) (rest : Byt
       simp only [beWord_be32, hneg, if_true]
       rfl
 
-/- OPEN: C03_work_d (every entry point d): the number of loop iterations of d on s is at most
-   2 · (bytes consumed) + c.
-   What is proved instead. (1) In the models every recursive call and every iteration of a list / compound /
-   struct loop uses one unit of fuel and the entry points run with fuel = input length + 3, so a model run
-   performs at most input length + 3 iterations along any path, and the array loops (`readInts`, `readLongs`,
-   `rawNums`) stop at the first `io.ReadFull` that cannot be satisfied. (2) That this fuel is never the
-   reason for an error is proved for all well-formed documents (`C01_decode_*`, `C01_skip_exact`: the result is
-   `ok` with fuel `input length + 3`), and compared with the real code on every generated malformed input by
-   the correspondence run (a list of 2^31−1 elements on a short input returns an error after one iteration in
-   both). Missing: the same statement for arbitrary (ill-formed) input, i.e. fuel-independence of the models
-   on all streams (needs a progress lemma "every successful element read consumes ≥ 1 byte" threaded through
-   the three mutual loops).
+/-! ### soundness: what the decoders accept is a well-formed document
 
-   OPEN: C03_sound_d: `d s = ok v` implies that the bytes consumed are `encDoc fmt name t` for a well-formed `t`
-   with `v = goAny t` (the converse of `C01_decode_*`). It would give `C03_neg_len_d`, `C03_unknown_tag_d` and
-   `C03_prefix_d` at every nesting depth in one statement. Proved instead: the prefix theorems above (every
-   well-formed document, every strict prefix), and the local theorems `C03_unknown_tag_*`, `C03_neg_len_*`
-   for the two functions every position of a document goes through; an error of a nested call ends the whole
-   `Decode` by `Rd.bind_err`. -/
+The converse of `C01_decode_any` / `C01_decode_raw`: one statement that covers negative lengths, unknown tag ids,
+truncation and every other malformation at every nesting depth. -/
+
+/-- `Decode(&v)` with `v` a nil `any`: whenever it returns a value, the bytes it consumed are `encDoc fmt nm t` for a
+well-formed tree `t` (strings and names below 2^15 bytes), the value is the Go value of `t`, the name the root name,
+and what follows the document is left in the source. -/
+theorem C03_sound_any (fmt : Format) (s s' : Stream) (v : GoAny) (name : Bytes)
+    (h : decodeAny (isNet fmt) s = (Res.ok (v, name), s')) :
+    ∃ (nm : Bytes) (t : NBT), t.WF ∧ S15 t ∧ nm.length < 32768 ∧ s.flat = encDoc fmt nm t ++ s'.flat ∧
+      s'.failing = s.failing ∧ v = goAny t ∧ name = docName fmt nm :=
+  GoMC.Lemmas.NBTSound.decodeAnyF_sound (fuelFor s) fmt s s' v name h
+
+/-- `Decode(&v)` with `v` a `RawMessage` (and with it `rawRead`, which also skips unknown struct fields): whenever
+it returns, the bytes consumed are the document of a well-formed tree, and the message holds that tree's tag and
+exactly its payload bytes. -/
+theorem C03_sound_raw (fmt : Format) (s s' : Stream) (v : Val) (name : Bytes)
+    (h : decodeRaw (isNet fmt) s = (Res.ok (v, name), s')) :
+    ∃ (nm : Bytes) (t : NBT), t.WF ∧ S15 t ∧ nm.length < 32768 ∧ s.flat = encDoc fmt nm t ++ s'.flat ∧
+      s'.failing = s.failing ∧ v = .raw t.tag (encPayload t) ∧ name = docName fmt nm :=
+  GoMC.Lemmas.NBTSound.decodeRawF_sound (fuelFor s) fmt s s' v name h
+
+/-- Work: a successful `Decode` into a nil `any` performs a number of nested calls and loop iterations that is
+linear in the bytes it CONSUMED, whatever follows them — run with any fuel above `consumed + 1` (one unit per nested
+call / iteration) it returns the same value and stops at the same place. (A failing run stops within
+`input length + 3` units by construction of the models.) -/
+theorem C03_work_any_partial (fmt : Format) (s s' : Stream) (r : GoAny × Bytes)
+    (h : decodeAny (isNet fmt) s = (Res.ok r, s')) (fuel : Nat) (hf : s.flat.length - s'.flat.length + 1 ≤ fuel) :
+    ∃ s'', decodeAnyF fuel (isNet fmt) s = (Res.ok r, s'') ∧ s''.flat = s'.flat ∧ s''.failing = s'.failing :=
+  GoMC.Lemmas.NBTSound.decodeAny_work fmt s s' r h fuel hf
+
+/- OPEN: C03_work_d for failing runs and for the reflective (typed) decoders: the number of loop iterations of d on
+   s is at most 2 · (bytes consumed) + c.
+   Proved: for the `any` decoder on every successful run (`C03_work_any_partial`); in the models every recursive call
+   and every iteration of a list / compound / struct loop uses one unit of fuel and the entry points run with
+   fuel = input length + 3 (+ the nesting of the destination type for the typed decoder: pointers are followed
+   without reading), so a model run performs at most that many iterations along any path, and the array loops
+   (`readInts`, `readLongs`, `rawNums`) stop at the first `io.ReadFull` that cannot be satisfied; the fuel is never
+   the reason for an error on a well-formed document (`C01_decode_*`), and the models are compared with the real
+   code on every generated malformed input (a list of 2^31−1 elements on a short input returns an error after one
+   iteration in both). Missing: "bytes consumed" instead of "input length" for failing runs (a progress lemma
+   threaded through the loops).
+
+   OPEN: C03_sound_d for the typed decoder (`unmarshal` over the Go type universe: ok ⇒ the consumed bytes are a
+   well-formed document). Proved: for the `any` and the `RawMessage` / skipping decoders (`C03_sound_any`,
+   `C03_sound_raw`) — every typed destination reads scalars, strings, lists and compounds through the same
+   primitives, and an `any` / `RawMessage` / unknown field inside a typed destination goes through these two —; the
+   typed decoder itself has the local theorems (`C03_unknown_tag_*`, `C03_neg_len_*`) and totality. -/
 
 
 /-! ### the other entry points the property lists: `dynbt.Value`, `StringifiedMessage`, `RawMessage.String`
